@@ -725,6 +725,13 @@ pub trait StoreFor<T: Storable>: Configurable + private::StoreCallbacks<T> {
             // item has no internal id yet, i.e. it is unbound
             // we generate an id and bind it now
             let intid = self.next_handle();
+            if intid.as_usize() != self.store().len() {
+                //the handle type is too narrow to number another item (it would wrap around
+                //and name an existing item)
+                return Err(StamError::OtherError(
+                    "Too many items: the store can not hold more items of this type",
+                ));
+            }
 
             // Bind an item to the store *PRIOR* to it being actually added:
 
